@@ -191,9 +191,16 @@ package database
 //@   ghost var wl bool = false
 //@   at call (*RWMutex).Lock ghost wl = true
 //@   at optional call (*RWMutex).Unlock ghost wl = false
-//@   at close assert chan == s.Feed && sub == s && wl
-//@   at store subscriptions assert wl
-//@   loop 0 invariant wl
+// the feed is closed exactly when this subscription was found in the list and taken out of it -
+// hence at most once over any number of Cancel calls (closing a closed channel panics)
+//@   ghost var removed int = 0
+//@   ghost var closed int = 0
+//@   at store subscriptions assert wl && removed == 0
+//@   at store subscriptions ghost removed = removed + 1
+//@   at close assert chan == s.Feed && wl && removed == 1 && closed == 0
+//@   at close ghost closed = closed + 1
+//@   loop 0 invariant wl && removed == 0 && closed == 0
+//@   ensures closed == removed
 
 //@ func (*RegisteredHook).Cancel
 //@   requires h != nil
@@ -256,10 +263,8 @@ package database
 //@   ghost var called bool = false
 //@   at after invoke.UsesPostGet ghost uses = ret0
 //@   at after invoke.UsesPostGet ghost hk = hook.h
-//@   at after (*Query).Matches ghost mt = ret0
-//@   at after (*Query).Matches ghost mq = arg0
-//@   at after (*Query).Matches ghost mr = arg1
-//@   at call invoke.PostGet assert uses && mt && mq == hook.q && hk == hook.h && mr == arg0 && arg0 == (called ? cur : first)
+// (stated over what the query selects, however the code asks: key prefix and record condition)
+//@   at call invoke.PostGet assert uses && hk == hook.h && qKey(hook.q, recKey(arg0)) && qRec(hook.q, arg0) && arg0 == (called ? cur : first)
 //@   at after invoke.PostGet ghost cur = ret0
 //@   at after invoke.PostGet ghost e = ret1
 //@   ghost var rl bool = false
@@ -287,10 +292,8 @@ package database
 //@   ghost var called bool = false
 //@   at after invoke.UsesPrePut ghost uses = ret0
 //@   at after invoke.UsesPrePut ghost hk = hook.h
-//@   at after (*Query).Matches ghost mt = ret0
-//@   at after (*Query).Matches ghost mq = arg0
-//@   at after (*Query).Matches ghost mr = arg1
-//@   at call invoke.PrePut assert uses && mt && mq == hook.q && hk == hook.h && mr == arg0 && arg0 == (called ? cur : first)
+// (stated over what the query selects, however the code asks: key prefix and record condition)
+//@   at call invoke.PrePut assert uses && hk == hook.h && qKey(hook.q, recKey(arg0)) && qRec(hook.q, arg0) && arg0 == (called ? cur : first)
 //@   at after invoke.PrePut ghost cur = ret0
 //@   at after invoke.PrePut ghost e = ret1
 //@   ghost var rl bool = false
